@@ -44,7 +44,8 @@ def run(repo: Repo, rep, tier: str):
     rep.count("documented_rows_compared", n, 55)
     generic_chunk_rows(repo, rep, "C03", secs, tables)
     fixed_sizes(repo, rep, "C03", secs)
-    from . import c02
+    from . import c01, c02
+    c01.slot_terminators(repo, rep, "C03")
     c02.chnm_below_chnk(repo, rep, "C03", "R5")
     from . import c16
     c16.record_sizes(repo, rep, "C03", "R6", tables)
